@@ -64,6 +64,12 @@ Script ==
             <<"gen", 2, [c |-> "rm", k |-> 2]>>, <<"gen", 2, Up(1)>>, <<"gen", 2, [c |-> "rmv", k |-> 1]>>,
             <<"gen", 3, Up(3)>>, <<"gen", 4, Up(3)>>,
             <<"dlv", 4, 1>>, <<"dlv", 4, 3>>, <<"dlv", 4, 4>>, <<"dlv", 4, 5>>, <<"dlv", 4, 6>> >>
+    \* KF-18a shape for Map (regression of fix 4c1b5ee): replica 4 holds two pending key removes, {A:2} -> {k1} (built from
+    \* the whole-map read) and {A:2,C:1} -> {k2}; reset_remove with {C:1} makes the two contexts collapse
+    [] ScriptName = "collapsing_pending_keys" ->
+         << <<"gen", 1, Up(1)>>, <<"gen", 1, Up(2)>>, <<"dlv", 2, 1>>, <<"dlv", 2, 2>>, <<"gen", 2, [c |-> "rmv", k |-> 1]>>,
+            <<"dlv", 3, 1>>, <<"dlv", 3, 2>>, <<"gen", 3, Up(2)>>, <<"gen", 3, [c |-> "rm", k |-> 2]>>,
+            <<"dlv", 4, 3>>, <<"dlv", 4, 4>>, <<"dlv", 4, 5>> >>
 ScriptInit == InitAfter(Script)
 
 \* JSON-friendly renderings: partial functions over Keys become total sequences of 0/1-element tuples
